@@ -12,7 +12,7 @@ EXTENDS LqRender, Json, TLC, IOUtils
 Trace == ndJsonDeserialize(IOEnv.LQ_TRACE)
 VARIABLE l
 
-ParseBad == {"badobj", "badtag", "unknowntag", "strayend", "strayclause", "badif", "openif"}
+ParseBad == {"badobj", "badtag", "unknowntag", "strayend", "strayclause", "badif", "openif", "openraw", "opencomment"}
 \* newlines before the first parse-time failing node, in document order: [found, n]
 RECURSIVE ScanSeq(_, _)
 RECURSIVE ScanNode(_, _)
